@@ -258,14 +258,16 @@ def hashExec (d : Disp) (hid : HashId) (msg : List Byte) (res : HRes) : Out × I
 /-- `mpt_dispatch_hash(disp, ev)` with a contiguous message -/
 def dispatchHash (d : Disp) (msg : List Byte) (res : HRes) : Out := (hashExec d (hashId msg) msg res).1
 
+/-- message made of the given fragments -/
+def msgOf : List (List Byte) → Msg
+  | [] => ⟨[], []⟩
+  | f :: fs => ⟨f, fs⟩
+
 /-- the id `mpt_dispatch_hash` computes for a message given in fragments (`base` = first fragment, `cont` = the
     others): header through `mpt_message_read`, first argument through `mpt_message_argv` (both modelled in
-    Impl/Message.lean), then the contiguous case (`msg.used >= len`) or the copy into the 128-byte buffer -/
+    Impl/Message.lean), then the contiguous case (`msg.used >= len`) or the copy into a scratch buffer -/
 def hashIdFrag (frags : List (List Byte)) : HashId :=
-  let m : Msg := match frags with
-    | [] => ⟨[], []⟩
-    | f :: fs => ⟨f, fs⟩
-  let r := m.read 2
+  let r := (msgOf frags).read 2
   if r.total < 2 then .fail                       -- missing message header / type
   else
     let ty := r.out[0]?.getD 0
@@ -278,9 +280,8 @@ def hashIdFrag (frags : List (List Byte)) : HashId :=
         -- continous data
         let len := if sep = 0 ∧ m2.base[len - 1]? = some 0 then len - 1 else len
         .id (mptHash (m2.base.take len))
-      else if len > 128 then .fail                -- large unaligned text command
       else
-        -- need aligned data
+        -- need aligned data (`buf[128]`, or a temporary block for larger texts: malloc does not fail in the model)
         let buf := (m2.read len).out
         let len := if sep = 0 ∧ buf[len - 1]? = some 0 then len - 1 else len
         .id (mptHash (buf.take len))
@@ -307,6 +308,12 @@ def emitFlags (d : Disp) (state : Int) (evid' : Id) (log : List LogE) : Disp × 
   let f2 := if d1.dflt != 0 then setDefault f1 else f1
   (d1, ⟨.val (Int.ofNat f2), log⟩)
 
+/-- `mpt_dispatch_hash(disp, ev)` called from inside a handler: outcome and event id afterwards -/
+def nestedCall (d : Disp) (msg : Option (List Byte)) (res : HRes) : Out × Id :=
+  match msg with
+  | some m => hashExec d (hashId m) m res
+  | none => (⟨.val failDefault, []⟩, 0)               -- missing message data
+
 /-- a harness handler that dispatches the event's command text by hash instead of answering itself
     (`return mpt_dispatch_hash(disp, ev)`): its own invocation is logged, then whatever the nested call logs; event
     id and returned value are those of the nested call.  Without a message the nested call fails at once. -/
@@ -315,9 +322,7 @@ def invokeNested (d : Disp) (h : Hnd) (arg : Nat) (evid : Id) (msg : Option (Lis
   match h with
   | .logReply => none
   | .user =>
-    let inner : Out × Id := match msg with
-      | some m => hashExec d (hashId m) m res
-      | none => (⟨.val failDefault, []⟩, 0)               -- missing message data
+    let inner := nestedCall d msg res
     match inner.1.ret with
     | .val v => some (.call arg evid :: inner.1.log, inner.2, v)
     | _ => none
